@@ -26,7 +26,12 @@ CONSTANTS
     PathRequiredChoices,                     \* subset of BOOLEAN: commit option path_required
     EncChoices,                              \* subset of BOOLEAN: handshake messages sent as PrivateMessage
     ByValueMax,                              \* max number of by-value proposals in one commit
-    AllowConflicts                           \* TRUE: generate update/remove conflicts on one leaf
+    AllowConflicts,                          \* TRUE: generate update/remove conflicts on one leaf
+    Features,                                \* subset of {"apps", "storage", "detached"}: optional action families
+    Window,                                  \* out-of-order window of a message ratchet (1024 in mls-rs)
+    Retention,                               \* number of prior epochs a storage provider retains
+    MaxApps,                                 \* bound on application message bursts
+    BurstSizes                               \* sizes of application message bursts offered by Next
 
 VARIABLES
     grp,        \* [Parties -> member state | NoGroup]
@@ -35,11 +40,16 @@ VARIABLES
     props,      \* Seq(proposal record); id = index          (the delivery service's log)
     commits,    \* Seq(commit record); id = index            (the delivery service's log)
     winner,     \* [epoch number -> commit id | 0] the commit the delivery service picked
-    opt,        \* [pathReq |-> BOOLEAN]
-    hist        \* history of steps for replay (hidden by VIEW)
+    opt,        \* [pathReq |-> BOOLEAN, enc |-> BOOLEAN]
+    repo,       \* [Parties -> [ins: Seq(prior epoch record), upd: Seq(prior epoch record)]]  GroupStateRepository
+    store,      \* [Parties -> [snap: member state | NoGroup, epochs: Seq(prior epoch record)]]  GroupStateStorage
+    apps,       \* Seq(application message burst); id = index
+    det,        \* [Parties -> set of commit ids] detached commits (CommitSecrets held by the application)
+    hist,       \* history of steps for replay (hidden by VIEW)
+    haux        \* per step: projection of the acting party's repository and storage after the step
 
-vars == <<grp, zomb, kps, props, commits, winner, opt, hist>>
-view == <<grp, zomb, kps, props, commits, winner, opt>>
+vars == <<grp, zomb, kps, props, commits, winner, opt, repo, store, apps, det, hist, haux>>
+view == <<grp, zomb, kps, props, commits, winner, opt, repo, store, apps, det>>
 
 Str(i) == ToString(i)
 KpLeafKey(i) == "kpL" \o Str(i)
@@ -237,18 +247,34 @@ Step(a, p, args, res, out) ==
 Record(a, p, args, res, out) == hist' = Append(hist, Step(a, p, args, res, out))
 
 -----------------------------------------------------------------------------
+(* Prior epochs (mls-rs/src/group/state_repo.rs, epoch.rs PriorEpoch).           *)
+PastRec(g) ==
+    [ks |-> g.ks, epoch |-> g.epoch, leaf |-> g.leaf, recv |-> g.recv,
+     who |-> [l \in OccupiedLeaves(g.tree) |-> Node(g.tree, 2 * l).who]]
+
+\* Group::insert_past_epoch: processing a commit queues the epoch that is left
+RepoFollows(p) ==
+    repo' = IF grp[p].st = "member" /\ grp'[p].st = "member" /\ grp'[p].ks # grp[p].ks
+            THEN [repo EXCEPT ![p].ins = Append(@, PastRec(grp[p]))]
+            ELSE repo
+
 Init ==
     /\ \E pr \in PathRequiredChoices, en \in EncChoices : opt = [pathReq |-> pr, enc |-> en]
     /\ grp = [p \in Parties |->
                 IF p = Creator
                 THEN [st |-> "member", epoch |-> 0, ks |-> 0, leaf |-> 0,
                       tree |-> <<MkLeaf("g", Creator, 0, "kp")>>,
-                      priv |-> (0 :> "g"), cache |-> {}, pend |-> 0, pendUpd |-> {}, seenC |-> {}]
+                      priv |-> (0 :> "g"), cache |-> {}, pend |-> 0, pendUpd |-> {}, seenC |-> {}, sendGen |-> 0, recv |-> <<>>]
                 ELSE NoGroup]
     /\ zomb = [p \in Parties |-> <<>>]
     /\ kps = <<>> /\ props = <<>> /\ commits = <<>>
     /\ winner = [e \in 0..MaxEpoch |-> 0]
+    /\ repo = [p \in Parties |-> [ins |-> <<>>, upd |-> <<>>]]
+    /\ store = [p \in Parties |-> [snap |-> NoGroup, epochs |-> <<>>, sql |-> <<>>]]
+    /\ apps = <<>>
+    /\ det = [p \in Parties |-> {}]
     /\ hist = <<>>
+    /\ haux = <<>>
 
 \* ---- key packages ----
 GenKeyPackage(p) ==
@@ -256,7 +282,7 @@ GenKeyPackage(p) ==
     /\ ~HasGroup(p)
     /\ ~\E i \in 1..Len(kps) : kps[i].owner = p /\ ~kps[i].used      \* one outstanding package per party
     /\ kps' = Append(kps, [owner |-> p, cv |-> 0, used |-> FALSE])
-    /\ UNCHANGED <<grp, zomb, props, commits, winner, opt>>
+    /\ UNCHANGED <<grp, zomb, props, commits, winner, opt, repo, store, apps, det>>
     /\ Record("GenKeyPackage", p, [kp |-> Len(kps) + 1], "ok", [x |-> 0])
 
 \* ---- proposals (by reference) ----
@@ -271,7 +297,7 @@ Propose(p, pr, argrec) ==
     /\ grp' = [grp EXCEPT ![p].cache = @ \cup {j},
                           ![p].pendUpd = IF pr.kind = "upd" THEN @ \cup {j} ELSE @]
     /\ Record("Propose", p, argrec @@ [prop |-> j, kind |-> pr.kind], "ok", [x |-> 0])
-    /\ UNCHANGED <<zomb, kps, commits, winner, opt>>
+    /\ UNCHANGED <<zomb, kps, commits, winner, opt, repo, store, apps, det>>
 
 ProposeAdd(p, i) ==
     /\ i \in 1..Len(kps) /\ ~kps[i].used
@@ -303,7 +329,7 @@ DeliverProposal(q, j) ==
             /\ Record("DeliverProposal", q, [prop |-> j], "ok", [x |-> 0])
        ELSE /\ UNCHANGED grp
             /\ Record("DeliverProposal", q, [prop |-> j], "err:epoch", [x |-> 0])
-    /\ UNCHANGED <<zomb, kps, props, commits, winner, opt>>
+    /\ UNCHANGED <<zomb, kps, props, commits, winner, opt, repo, store, apps, det>>
 
 \* ---- commit construction (Group::commit_internal) ----
 ByValueItems(g) ==
@@ -321,25 +347,27 @@ CachedItems(g) ==
     \* by-reference add per commit (DESIGN 3.4)
     LET ids == SetToSortedSeq(g.cache) IN [i \in 1..Len(ids) |-> ItemOfProp(ids[i])]
 
-Commit(p, byval) ==
+Commit(p, byval, dt) ==
     LET g == grp[p]
+        act == IF dt THEN "CommitDetached" ELSE "Commit"
         n == Len(commits) + 1
         items == CachedItems(g) \o byval
         ar == ApplyProposals("send", g.tree, g.leaf, items)
         args == [byval |-> byval]
     IN
     /\ HasGroup(p) /\ Len(commits) < MaxCommits /\ g.epoch < MaxEpoch
+    /\ (dt => "detached" \in Features)
     /\ Cardinality({j \in g.cache : props[j].kind = "add"}) <= 1
     /\ IF \E i \in 1..Len(byval) : byval[i].kind = "rem" /\ byval[i].target \notin OccupiedLeaves(g.tree)
        THEN \* CommitBuilder::remove_member validates the index against the current tree
-            /\ UNCHANGED <<grp, commits>>
-            /\ Record("Commit", p, args, "err:rule:remove-nonmember", [x |-> 0])
+            /\ UNCHANGED <<grp, commits, det>>
+            /\ Record(act, p, args, "err:rule:remove-nonmember", [x |-> 0])
        ELSE IF g.pend # 0
-       THEN /\ UNCHANGED <<grp, commits>>
-            /\ Record("Commit", p, args, "err:pending-exists", [x |-> 0])
+       THEN /\ UNCHANGED <<grp, commits, det>>
+            /\ Record(act, p, args, "err:pending-exists", [x |-> 0])
        ELSE IF ~ar.ok
-       THEN /\ UNCHANGED <<grp, commits>>
-            /\ Record("Commit", p, args, "err:" \o ar.err, [x |-> 0])
+       THEN /\ UNCHANGED <<grp, commits, det>>
+            /\ Record(act, p, args, "err:" \o ar.err, [x |-> 0])
        ELSE
          LET withPath == opt.pathReq \/ PathNeeded(ar.applied)
              priv0 == ProvisionalPriv(g, ar.tree, ar.applied)
@@ -359,8 +387,9 @@ Commit(p, byval) ==
                    added |-> ar.added, removed |-> ar.removed, newTree |-> tree1, newPriv |-> newPriv,
                    unused |-> unused]
          IN /\ commits' = Append(commits, c)
-            /\ grp' = [grp EXCEPT ![p].pend = n]
-            /\ Record("Commit", p, args, "ok",
+            /\ grp' = IF dt THEN grp ELSE [grp EXCEPT ![p].pend = n]
+            /\ det' = IF dt THEN [det EXCEPT ![p] = @ \cup {n}] ELSE det
+            /\ Record(act, p, args, "ok",
                       [commit |-> n, path |-> withPath,
                        applied |-> [i \in 1..Len(ar.applied) |-> [kind |-> ar.applied[i].kind, ref |-> ar.applied[i].ref]],
                        unused |-> SetToSortedSeq(unused),
@@ -369,13 +398,13 @@ Commit(p, byval) ==
                        recips |-> LET xs == SetToSortedSeq(DOMAIN recips) IN [i \in 1..Len(xs) |-> [node |-> xs[i], keys |-> recips[xs[i]]]],
                        welcomeKeys |-> [i \in 1..Len(ar.added) |-> KpInitKey(ar.added[i][1])],
                        newTree |-> [i \in 1..Len(tree1) |-> ProjNode(tree1[i])]])
-    /\ UNCHANGED <<zomb, kps, props, winner, opt>>
+    /\ UNCHANGED <<zomb, kps, props, winner, opt, repo, store, apps>>
 
 ClearPending(p) ==
     /\ HasGroup(p) /\ grp[p].pend # 0
     /\ grp' = [grp EXCEPT ![p].pend = 0]
     /\ Record("ClearPending", p, [x |-> 0], "ok", [x |-> 0])
-    /\ UNCHANGED <<zomb, kps, props, commits, winner, opt>>
+    /\ UNCHANGED <<zomb, kps, props, commits, winner, opt, repo, store, apps, det>>
 
 \* the delivery service orders commits: one winner per epoch
 DsChoose(n) ==
@@ -384,8 +413,8 @@ DsChoose(n) ==
     /\ IF commits[n].baseEpoch = 0 THEN TRUE
        ELSE winner[commits[n].baseEpoch - 1] = commits[n].baseKs   \* extends the chosen history
     /\ winner' = [winner EXCEPT ![commits[n].baseEpoch] = n]
-    /\ hist' = hist
-    /\ UNCHANGED <<grp, zomb, kps, props, commits, opt>>
+    /\ hist' = Append(hist, [a |-> "DsChoose", p |-> commits[n].by, args |-> [commit |-> n], res |-> "ok", out |-> [x |-> 0], post |-> [st |-> "skip"]])
+    /\ UNCHANGED <<grp, zomb, kps, props, commits, opt, repo, store, apps, det>>
 
 IsWinner(n) == winner[commits[n].baseEpoch] = n
 
@@ -393,7 +422,7 @@ IsWinner(n) == winner[commits[n].baseEpoch] = n
 ApplyOwn(g, n) ==
     LET c == commits[n] IN
     [g EXCEPT !.epoch = g.epoch + 1, !.ks = n, !.tree = c.newTree, !.priv = c.newPriv,
-              !.cache = {}, !.pend = 0, !.pendUpd = {}, !.seenC = {}]
+              !.cache = {}, !.pend = 0, !.pendUpd = {}, !.seenC = {}, !.sendGen = 0, !.recv = <<>>]
 
 ApplyPending(p) ==
     LET g == grp[p] IN
@@ -404,7 +433,8 @@ ApplyPending(p) ==
        ELSE /\ IsWinner(g.pend)
             /\ grp' = [grp EXCEPT ![p] = ApplyOwn(g, g.pend)]
             /\ Record("ApplyPending", p, [x |-> 0], "ok", [commit |-> g.pend])
-    /\ UNCHANGED <<zomb, kps, props, commits, winner, opt>>
+    /\ RepoFollows(p)
+    /\ UNCHANGED <<zomb, kps, props, commits, winner, opt, store, apps, det>>
 
 \* a member processes a commit message (MessageProcessor::process_commit)
 DeliverCommit(q, n) ==
@@ -442,7 +472,7 @@ DeliverCommit(q, n) ==
             IF opt.enc /\ n \in g.seenC
             THEN /\ UNCHANGED <<grp, zomb>>
                  /\ Record("DeliverCommit", q, args, "err:replay", [x |-> 0])
-            ELSE /\ grp' = [grp EXCEPT ![q].seenC = IF opt.enc THEN @ \cup {n} ELSE @]
+            ELSE /\ grp' = [grp EXCEPT ![q].seenC = @ \cup {n}]
                  /\ UNCHANGED zomb
                  /\ Record("DeliverCommit", q, args, "ok:removed", [x |-> 0])
        ELSE
@@ -464,10 +494,11 @@ DeliverCommit(q, n) ==
                  /\ Record("DeliverCommit", q, args, "err:decap-" \o dec.why, [x |-> 0])
             ELSE /\ grp' = [grp EXCEPT ![q] = [g EXCEPT !.epoch = g.epoch + 1, !.ks = n, !.tree = tree1,
                                                         !.priv = MergeFn(RestrictFn(priv0, keep), learned),
-                                                        !.cache = {}, !.pend = 0, !.pendUpd = {}, !.seenC = {}]]
+                                                        !.cache = {}, !.pend = 0, !.pendUpd = {}, !.seenC = {}, !.sendGen = 0, !.recv = <<>>]]
                  /\ UNCHANGED zomb
                  /\ Record("DeliverCommit", q, args, IF c.by = q THEN "ok:own" ELSE "ok", [x |-> 0])
-    /\ UNCHANGED <<kps, props, commits, winner, opt>>
+    /\ RepoFollows(q)
+    /\ UNCHANGED <<kps, props, commits, winner, opt, store, apps, det>>
 
 \* a party joins with the Welcome of commit n (Group::from_welcome_message)
 JoinWelcome(q, n) ==
@@ -483,10 +514,11 @@ JoinWelcome(q, n) ==
            learned == IF c.path THEN LearnedKeys(c.newTree, c.byLeaf, l, c.pathKeys) ELSE <<>>
        IN /\ grp' = [grp EXCEPT ![q] = [st |-> "member", epoch |-> c.baseEpoch + 1, ks |-> n, leaf |-> l,
                                         tree |-> c.newTree, priv |-> MergeFn((2 * l :> KpLeafKey(kp)), learned),
-                                        cache |-> {}, pend |-> 0, pendUpd |-> {}, seenC |-> {}]]
+                                        cache |-> {}, pend |-> 0, pendUpd |-> {}, seenC |-> {}, sendGen |-> 0, recv |-> <<>>]]
           /\ kps' = [kps EXCEPT ![kp].used = TRUE]
+          /\ repo' = [repo EXCEPT ![q] = [ins |-> <<>>, upd |-> <<>>]]
           /\ Record("JoinWelcome", q, [commit |-> n, kp |-> kp], "ok", [x |-> 0])
-    /\ UNCHANGED <<zomb, props, commits, winner, opt>>
+    /\ UNCHANGED <<zomb, props, commits, winner, opt, store, apps, det>>
 
 \* a removed member's group object is retired (kept as a zombie that must reject all later traffic)
 Retire(q) ==
@@ -495,7 +527,147 @@ Retire(q) ==
     /\ zomb' = [zomb EXCEPT ![q] = Append(@, grp[q])]
     /\ grp' = [grp EXCEPT ![q] = NoGroup]
     /\ Record("Retire", q, [x |-> 0], "ok", [x |-> 0])
-    /\ UNCHANGED <<kps, props, commits, winner, opt>>
+    /\ UNCHANGED <<kps, props, commits, winner, opt, repo, store, apps, det>>
+
+-----------------------------------------------------------------------------
+(* Application messages and the per-sender message ratchets                 *)
+(* (mls-rs/src/group/secret_tree.rs SecretKeyRatchet::get_message_key).     *)
+(* A burst is k consecutive generations encrypted by one sender in one      *)
+(* epoch; any generation of any burst can be delivered to anybody at any    *)
+(* time (reordering, duplication, late delivery).                           *)
+NoRatchet == [next |-> 0, hist |-> {}]
+RatchetOf(recv, l) == IF l \in DOMAIN recv THEN recv[l] ELSE NoRatchet
+
+\* outcome of asking ratchet r for generation gen
+RatchetVerdict(r, gen) ==
+    IF gen < r.next THEN (IF gen \in r.hist THEN "ok" ELSE "err:replay")
+    ELSE IF gen > r.next + Window THEN "err:future"
+    ELSE "ok"
+
+RatchetAfter(r, gen) ==
+    IF gen < r.next THEN [r EXCEPT !.hist = @ \ {gen}]
+    ELSE [next |-> gen + 1, hist |-> r.hist \cup (r.next..(gen - 1))]
+
+Encrypt(p, k) ==
+    LET g == grp[p] IN
+    /\ "apps" \in Features /\ HasGroup(p) /\ Len(apps) < MaxApps /\ k >= 1
+    /\ IF g.cache # {}
+       THEN \* pending proposals: the library refuses to send application data (CommitRequired)
+            /\ UNCHANGED <<grp, apps>>
+            /\ Record("Encrypt", p, [k |-> k], "err:commit-required", [x |-> 0])
+       ELSE /\ apps' = Append(apps, [by |-> p, byLeaf |-> g.leaf, ks |-> g.ks, epoch |-> g.epoch,
+                                     lo |-> g.sendGen, hi |-> g.sendGen + k - 1])
+            /\ grp' = [grp EXCEPT ![p].sendGen = @ + k]
+            /\ Record("Encrypt", p, [k |-> k], "ok", [app |-> Len(apps) + 1, lo |-> g.sendGen])
+    /\ UNCHANGED <<zomb, kps, props, commits, winner, opt, repo, store, det>>
+
+\* where a prior epoch is found (state_repo.rs get_epoch_mut): pending inserts (only there once the id is
+\* >= the first queued id), then loaded updates, then storage
+FindPrior(q, e) ==
+    LET r == repo[q]
+        inIns == {i \in 1..Len(r.ins) : r.ins[i].epoch = e}
+        inUpd == {i \in 1..Len(r.upd) : r.upd[i].epoch = e}
+        inSto == {i \in 1..Len(store[q].epochs) : store[q].epochs[i].epoch = e}
+    IN IF r.ins # <<>> /\ e >= r.ins[1].epoch
+       THEN (IF inIns # {} THEN [where |-> "ins", i |-> CHOOSE i \in inIns : TRUE] ELSE [where |-> "none"])
+       ELSE IF inUpd # {} THEN [where |-> "upd", i |-> CHOOSE i \in inUpd : TRUE]
+       ELSE IF inSto # {} THEN [where |-> "store", i |-> CHOOSE i \in inSto : TRUE]
+       ELSE [where |-> "none"]
+
+DeliverApp(q, a, gen) ==
+    LET g == grp[q]
+        m == apps[a]
+        args == [app |-> a, gen |-> gen]
+    IN
+    /\ "apps" \in Features /\ a \in 1..Len(apps) /\ HasGroup(q) /\ m.by # q /\ gen \in m.lo..m.hi
+    /\ IF m.ks = g.ks
+       THEN LET r == RatchetOf(g.recv, m.byLeaf)  v == RatchetVerdict(r, gen) IN
+            /\ grp' = IF v = "ok" THEN [grp EXCEPT ![q].recv = (m.byLeaf :> RatchetAfter(r, gen)) @@ @] ELSE grp
+            /\ UNCHANGED repo
+            /\ Record("DeliverApp", q, args, v, [x |-> 0])
+       ELSE IF m.epoch >= g.epoch
+       THEN \* a future epoch, or the same epoch number on another branch: no key material
+            /\ UNCHANGED <<grp, repo>>
+            /\ Record("DeliverApp", q, args, "err:epoch-not-found", [x |-> 0])
+       ELSE LET f == FindPrior(q, m.epoch) IN
+            IF f.where = "none"
+            THEN /\ UNCHANGED <<grp, repo>>
+                 /\ Record("DeliverApp", q, args, "err:epoch-not-found", [x |-> 0])
+            ELSE LET rec == CASE f.where = "ins" -> repo[q].ins[f.i]
+                              [] f.where = "upd" -> repo[q].upd[f.i]
+                              [] f.where = "store" -> store[q].epochs[f.i]
+                     r == RatchetOf(rec.recv, m.byLeaf)
+                     v0 == RatchetVerdict(r, gen)
+                     \* C19: the sender's leaf must still carry the identity it had in that epoch
+                     senderOk == /\ m.byLeaf \in OccupiedLeaves(g.tree)
+                                 /\ m.byLeaf \in DOMAIN rec.who
+                                 /\ Node(g.tree, 2 * m.byLeaf).who = rec.who[m.byLeaf]
+                     v == IF rec.ks # m.ks THEN "err:decrypt"
+                          ELSE IF v0 # "ok" THEN v0
+                          ELSE IF ~senderOk THEN "err:sender-gone" ELSE "ok"
+                     rec2 == [rec EXCEPT !.recv = (m.byLeaf :> RatchetAfter(r, gen)) @@ @]
+                 IN /\ UNCHANGED grp
+                    /\ repo' = IF v # "ok"
+                               THEN (IF f.where = "store"   \* the record was loaded (and stays cached) but is unmodified
+                                     THEN [repo EXCEPT ![q].upd = Append(@, rec)] ELSE repo)
+                               ELSE CASE f.where = "ins" -> [repo EXCEPT ![q].ins[f.i] = rec2]
+                                      [] f.where = "upd" -> [repo EXCEPT ![q].upd[f.i] = rec2]
+                                      [] f.where = "store" -> [repo EXCEPT ![q].upd = Append(@, rec2)]
+                    /\ Record("DeliverApp", q, args, v, [from |-> f.where])
+    /\ UNCHANGED <<zomb, kps, props, commits, winner, opt, store, apps, det>>
+
+-----------------------------------------------------------------------------
+(* Storage (state_repo.rs write_to_storage, in_memory/group_state_storage.rs, *)
+(* mls-rs-provider-sqlite/src/group_state.rs).                                *)
+LastN(sq, n) == IF Len(sq) <= n THEN sq ELSE SubSeq(sq, Len(sq) - n + 1, Len(sq))
+
+ApplyUpd(epochs, upd) ==
+    [i \in 1..Len(epochs) |->
+        LET hits == {j \in 1..Len(upd) : upd[j].epoch = epochs[i].epoch} IN
+        IF hits = {} THEN epochs[i] ELSE upd[CHOOSE j \in hits : \A k \in hits : k <= j]]
+
+SqlTrim(all, ins) ==
+    IF ins = <<>> THEN all
+    ELSE LET mx == ins[Len(ins)].epoch IN SelectSeq(all, LAMBDA r : mx < Retention \/ r.epoch > mx - Retention)
+
+Write(p) ==
+    /\ "storage" \in Features /\ HasGroup(p)
+    /\ store' = [store EXCEPT ![p] = [snap |-> grp[p],
+                                      \* in-memory provider: keep the last Retention records by position
+                                      epochs |-> LastN(ApplyUpd(store[p].epochs, repo[p].upd) \o repo[p].ins, Retention),
+                                      \* SQLite provider: delete ids <= max inserted id - Retention, only when something was inserted
+                                      sql |-> SqlTrim(ApplyUpd(store[p].sql, repo[p].upd) \o repo[p].ins, repo[p].ins)]]
+    /\ repo' = [repo EXCEPT ![p] = [ins |-> <<>>, upd |-> <<>>]]
+    /\ UNCHANGED <<grp, zomb, kps, props, commits, winner, opt, apps, det>>
+    /\ Record("Write", p, [x |-> 0], "ok", [x |-> 0])
+
+\* the process dies and the member is loaded again from storage: everything not written is forgotten
+Load(p) ==
+    /\ "storage" \in Features /\ store[p].snap.st = "member"
+    /\ (grp[p].st = "member" => grp[p].ks = grp[p].ks)
+    /\ grp' = [grp EXCEPT ![p] = store[p].snap]
+    /\ repo' = [repo EXCEPT ![p] = [ins |-> <<>>, upd |-> <<>>]]
+    /\ det' = [det EXCEPT ![p] = {}]
+    /\ UNCHANGED <<zomb, kps, props, commits, winner, opt, store, apps>>
+    /\ Record("Load", p, [x |-> 0], "ok", [x |-> 0])
+
+-----------------------------------------------------------------------------
+(* Detached commits (Group::commit_detached / apply_detached_commit).       *)
+(* The secrets live outside the group; applying them is only legitimate on  *)
+(* the epoch they were built from.                                          *)
+ApplyDetached(p, n) ==
+    LET g == grp[p] IN
+    /\ "detached" \in Features /\ HasGroup(p) /\ n \in det[p]
+    /\ IF commits[n].baseKs = g.ks
+       THEN /\ IsWinner(n)
+            /\ grp' = [grp EXCEPT ![p] = ApplyOwn(g, n)]
+            /\ Record("ApplyDetached", p, [commit |-> n], "ok", [x |-> 0])
+       ELSE /\ UNCHANGED grp
+            /\ Record("ApplyDetached", p, [commit |-> n], "err:epoch", [x |-> 0])
+    /\ RepoFollows(p)
+    /\ det' = [det EXCEPT ![p] = @ \ {n}]
+    /\ UNCHANGED <<zomb, kps, props, commits, winner, opt, store, apps>>
+
 
 Next ==
     \/ \E p \in Parties : GenKeyPackage(p)
@@ -503,15 +675,31 @@ Next ==
     \/ \E p \in Parties : \E l \in 0..7 : ProposeRemove(p, l)
     \/ \E p \in Parties : ProposeUpdate(p)
     \/ \E q \in Parties : \E j \in 1..Len(props) : DeliverProposal(q, j)
-    \/ \E p \in Parties : HasGroup(p) /\ \E bv \in ByValueSeqs(grp[p]) : Commit(p, bv)
+    \/ \E p \in Parties : HasGroup(p) /\ \E bv \in ByValueSeqs(grp[p]) : \E dt \in BOOLEAN : Commit(p, bv, dt)
     \/ \E p \in Parties : ClearPending(p)
     \/ \E n \in 1..Len(commits) : DsChoose(n)
     \/ \E p \in Parties : ApplyPending(p)
     \/ \E q \in Parties : \E n \in 1..Len(commits) : DeliverCommit(q, n)
     \/ \E q \in Parties : \E n \in 1..Len(commits) : JoinWelcome(q, n)
     \/ \E q \in Parties : Retire(q)
+    \/ \E p \in Parties : \E k \in BurstSizes : Encrypt(p, k)
+    \/ \E q \in Parties : \E a \in 1..Len(apps) : \E gen \in apps[a].lo..apps[a].hi : DeliverApp(q, a, gen)
+    \/ \E p \in Parties : Write(p)
+    \/ \E p \in Parties : Load(p)
+    \/ \E p \in Parties : \E n \in det[p] : ApplyDetached(p, n)
 
-Spec == Init /\ [][Next]_vars
+\* the acting party's repository / storage after the step (needs the primed variables, hence a
+\* conjunct evaluated after Next)
+AuxOf(p) ==
+    [ins |-> [i \in 1..Len(repo'[p].ins) |-> repo'[p].ins[i].epoch],
+     upd |-> SetToSortedSeq({repo'[p].upd[i].epoch : i \in 1..Len(repo'[p].upd)}),
+     stored |-> [i \in 1..Len(store'[p].epochs) |-> store'[p].epochs[i].epoch],
+     snap |-> IF store'[p].snap.st = "member" THEN store'[p].snap.epoch ELSE 0,
+     hasSnap |-> store'[p].snap.st = "member"]
+
+Logged(A) == A /\ haux' = Append(haux, AuxOf(hist'[Len(hist')].p))
+
+Spec == Init /\ [][Logged(Next)]_vars
 
 -----------------------------------------------------------------------------
 (* Invariants *)
@@ -567,6 +755,44 @@ PendingOnCurrentEpoch ==
     \A p \in Parties : (HasGroup(p) /\ grp[p].pend # 0) =>
         /\ commits[grp[p].pend].by = p
         /\ commits[grp[p].pend].baseKs = grp[p].ks
+
+\* C06: the two shipped storage providers retain the same history (their trimming code differs)
+ProvidersAgree == \A p \in Parties : store[p].epochs = store[p].sql
+
+\* C19: what storage retains after a write is exactly the Retention most recent prior epochs, contiguous
+RetentionExact ==
+    \A p \in Parties :
+        LET e == store[p].epochs IN
+        /\ Len(e) <= Retention
+        /\ \A i \in 1..(Len(e) - 1) : e[i + 1].epoch = e[i].epoch + 1
+        /\ (store[p].snap.st = "member" /\ e # <<>>) => e[Len(e)].epoch < store[p].snap.epoch
+
+\* C05: within an epoch a sender never encrypts two messages under the same generation (unless it was
+\* rolled back to an older snapshot, where the random reuse guard is the only protection)
+NoGenerationReuse ==
+    \A a, b \in 1..Len(apps) :
+        (a < b /\ apps[a].ks = apps[b].ks /\ apps[a].by = apps[b].by /\ apps[a].byLeaf = apps[b].byLeaf) =>
+            \/ apps[a].hi < apps[b].lo
+            \/ \E i \in 1..Len(hist) : hist[i].a = "Load" /\ hist[i].p = apps[a].by
+
+\* C05: a receiver accepts a given ciphertext at most once (between two reloads)
+RECURSIVE CountAccepts(_, _, _, _)
+CountAccepts(i, q, a, gen) ==
+    IF i = 0 THEN 0
+    ELSE IF hist[i].a = "Load" /\ hist[i].p = q THEN 0
+    ELSE (IF hist[i].a = "DeliverApp" /\ hist[i].p = q /\ hist[i].res = "ok" /\ hist[i].args.app = a /\ hist[i].args.gen = gen THEN 1 ELSE 0)
+         + CountAccepts(i - 1, q, a, gen)
+AtMostOnce ==
+    (hist # <<>> /\ hist[Len(hist)].a = "DeliverApp" /\ hist[Len(hist)].res = "ok") =>
+        CountAccepts(Len(hist), hist[Len(hist)].p, hist[Len(hist)].args.app, hist[Len(hist)].args.gen) = 1
+
+\* C01/C11 (action property): a member changes epoch only by one step, onto a commit built on its
+\* current epoch (or by being reloaded from storage)
+StepsByOne ==
+    [][\A p \in Parties :
+        (grp[p].st = "member" /\ grp'[p].st = "member" /\ grp'[p].ks # grp[p].ks) =>
+            \/ (grp'[p].epoch = grp[p].epoch + 1 /\ commits[grp'[p].ks].baseKs = grp[p].ks)
+            \/ grp'[p] = store[p].snap]_vars
 
 TypeOK ==
     /\ \A p \in Parties : grp[p].st \in {"none", "member"}
